@@ -482,7 +482,7 @@ class Simulation:
         self._summary = self._build_summary()
         return self._summary
 
-    def _execute_until(self, end_time_ns: int) -> None:
+    def _execute_until(self, end_time_ns: int, *, strict: bool = False) -> None:
         """Run the pop-invoke-push loop until time exceeds end_time_ns.
 
         This is the extracted inner loop shared by ``_run_loop_fast`` (normal
@@ -493,6 +493,11 @@ class Simulation:
         When ``_event_router`` is set, produced events are passed through the
         router which separates local events (returned to push) from
         cross-partition events (appended to an outbox as a side-effect).
+
+        With ``strict=True`` (windowed execution) no event stamped after
+        ``end_time_ns`` is executed: the next event stays in the heap.  A
+        partition must not run past the barrier, because a cross-partition
+        event injected at the barrier may be due before that event.
         """
         heap = self._event_heap
         clock = self._clock
@@ -504,8 +509,12 @@ class Simulation:
         events_processed = self._events_processed
         events_cancelled = self._events_cancelled
         router = self._event_router
+        heap_peek = heap.peek
 
         while heap_has_events() and current_time.nanoseconds <= end_time_ns:
+            if strict and heap_peek().time.nanoseconds > end_time_ns:
+                break
+
             event = heap_pop()
 
             if event._cancelled:
@@ -575,7 +584,7 @@ class Simulation:
 
         with _active_sim_context(self._event_heap, self._clock):
             with _active_debugger_context(None):
-                self._execute_until(window_end.nanoseconds)
+                self._execute_until(window_end.nanoseconds, strict=True)
 
     def _build_summary(self) -> SimulationSummary:
         """Build a SimulationSummary from current state."""
